@@ -18,7 +18,7 @@ LenArgs == {1, 2, 127, 128, 255, 65535}
 SetArgs == {0, 1, 127, 128, 255, 256, 65535, 16777215, 2147483647, -1}        \* -1 stands for 2^32 - 1
 FormArgs == {0, 1, 2, 3, 4, 5}                                                  \* 0: indefinite 0x80; 1..4: that many length octets (non-minimal); 5: 0x85
 TagArgs == {0, 2, 4, 5, 31, 48, 49, 128, 160, 255}
-GrowArgs == {1, 16, 300, 70000}
+GrowArgs == {1, 16, 256, 300, 512, 70000}      \* 256 and 512 keep a block-cipher payload block-aligned while outgrowing fixed buffers
 FillArgs == {0, 127, 128, 255}
 NestArgs == {4, 64, 1000}
 RepArgs == {3, 10, 33, 80, 400}                                                     \* a member repeated that many times (bounded output arrays)
